@@ -30,6 +30,10 @@ func main() {
 		runKver(r, n)
 	case "k4":
 		runK4(r, n, true)
+	case "kpool":
+		runKpool(r, n)
+	case "kmux":
+		runKmux(r, n)
 	case "kcs":
 		runKcs(r, n)
 	case "k19":
